@@ -221,18 +221,31 @@ class Run:
         body = self.sc['roots'][step.get('root', 0)]
         out = Outcome()
 
-        def root(builder):
+        marker = object()
+        passed = []
+
+        def root(builder, *a, **kw):
+            passed.append((a, kw))
             return it.run_root(builder, body)
 
         name = step.get('name', self.cfg.get('build_name', 'B'))
+        from .interp import spell
+        cache_arg = spell(sb.cache, self.cfg.get('cache_spelling'), sb)
         sim.phase = 'build'
         try:
             if step.get('plain'):
-                out.value = self.fb.FileBuilder.build(sb.cache, name, root)
+                # (arguments of the root function need not be JSON values and
+                # are passed through untouched)
+                out.value = self.fb.FileBuilder.build(
+                    cache_arg, name, root, marker, 7, k=marker)
             else:
                 out.value = self.fb.FileBuilder.build_versioned(
-                    sb.cache, name, versions, root)
+                    cache_arg, name, versions, root)
             out.kind = 'ok'
+            if step.get('plain') and passed and not (
+                    passed[0][0] == (marker, 7) and
+                    passed[0][1] == {'k': marker}):
+                it.viol.append(('C10', 'root-arguments-altered', 'root'))
         except Exception as e:
             out.kind = 'exc'
             out.exc = type(e).__name__
@@ -1076,9 +1089,13 @@ class Run:
                        listdir_seed=self.cfg.get('listdir_seed'))
         self.sim.phase = 'clean'
         name = step.get('name', self.cfg.get('build_name', 'B'))
+        if step.get('anon'):
+            name = None
+        from .interp import spell
         out = Outcome()
         try:
-            self.fb.FileBuilder.clean(sb.cache, name)
+            self.fb.FileBuilder.clean(
+                spell(sb.cache, self.cfg.get('cache_spelling'), sb), name)
             out.kind = 'ok'
         except Exception as e:
             out.kind = 'exc'
